@@ -210,6 +210,24 @@ def graph_task(t, res):
                 res.sample(dict(shape=[r, c], bits=bits, solution=p), cap=1)
 
 
+def mixed_task(t, res):
+    """same-cell-count shapes interleaved in one fresh interpreter: graph by graph, each with its shortest solutions between the
+    first and the last cell and one start == end solution, under all option combinations"""
+    per = []
+    for (r, c) in t["group"]:
+        per.append([(r, c, b) for b in range(R.n_graphs(r, c))])
+    seq = [x for k in range(max(map(len, per))) for x in (p[k] for p in per if k < len(p))]
+    if t["order"] == "reversed":
+        seq = seq[::-1]
+    for (r, c, bits) in seq:
+        adj = R.adjacency(R.graph_from_bits(r, c, bits))
+        cells = R.cells(r, c)
+        sols = [[cells[0]]] + R.all_shortest_paths(adj, cells[0], cells[-1])[:2] + R.all_shortest_paths(adj, cells[-1], cells[1])[:1]
+        for p in sols:
+            check_process(r, c, bits, p, res, adj)
+            res.count("mixed_sequence_mazes")
+
+
 def structured_task(t, res):
     r, c = t["shape"]
     fam = structured(r, c)
@@ -423,7 +441,10 @@ def any_task(t, res):
 def run(ctx):
     tasks, cov = plan(ctx.tier)
     ctx.pmap(MOD, "any_task", [dict(fn=fn, arg=arg) for fn, arg in tasks])
-    ctx.coverage.update(bounds=cov, option_combinations=[optname(o) for o in OPTS], index_lists_per_dataset=len(IDX_LISTS))
+    groups = [[(2, 3), (3, 2)], [(1, 4), (4, 1), (2, 2)], [(1, 3), (3, 1)]]
+    ctx.pmap(MOD, "any_task", [dict(fn="mixed_task", arg=dict(group=g, order=o)) for g in groups for o in ("interleaved", "reversed")], fresh=True)
+    ctx.coverage.update(bounds=cov, mixed_sequences=dict(groups=[[list(x) for x in g] for g in groups], orders=["interleaved", "reversed"],
+                                                         mazes=ctx.res.counters.get("mixed_sequence_mazes", 0)), option_combinations=[optname(o) for o in OPTS], index_lists_per_dataset=len(IDX_LISTS))
     ctx.rule = ("every connection structure of the listed grids x every stored solution (all simple paths on <= 6 cells; all shortest paths of all "
                 "ordered pairs incl. start == end on larger ones) x 8 option combinations through process_maze_rasterized_input_target; "
                 "triples of n x n mazes x 8 configs x {ds[i], get_batch(None), get_batch of all 39 index tuples of length 1..3, "
